@@ -169,7 +169,7 @@ def _gen_rows(rng):
             xk.pop()
         elif r < 0.1:
             xk[-1][0] = nt   # other name
-    return {"kind": "rows", "names": names + ["other"], "ejks": ejks, "xkeys": xk}
+    return {"kind": "rows", "names": names + ["other"], "ejks": ejks, "xkeys": xk, "reuse": rng.random() < 0.4}
 
 
 def _gen_net(rng, tier):
@@ -203,6 +203,8 @@ def corpus():
                "P": [[[5, 1], [1, 4]], [[3, 2], [1, 2]], [[1, 3], [1, 4]]]})
     cs.append({"kind": "jdd", "names": ["x"], "P": [[[0], [1, 2]], [[2], [1, 2]]]})
     cs.append({"kind": "jdd", "names": ["x"], "P": []})
+    cs.append({"kind": "rows", "names": ["2-clique", "other"], "xkeys": None, "reuse": True,
+               "ejks": [[[[0, 0], [1, 2]], [[1, 1], [1, 2]]]]})
     cs.append({"kind": "rows", "names": ["2-clique", "other"], "xkeys": None,
                "ejks": [[[[0, 1], [1, 4]], [[1, 0], [1, 4]], [[1, 1], [1, 2]]]]})
     cs.append({"kind": "net", "names": ["2-clique", "3-clique"],
@@ -300,7 +302,15 @@ def impl(case):
         from gcmpy.tools.joint_excess_joint_degree_matrices import JointExcessJointDegreeMatrices
         names = case["names"]
         ej = {names[i]: _pdict(m) for i, m in enumerate(case["ejks"])}
-        M = JointExcessJointDegreeMatrices({ToolsNames.EJKS: ej, ToolsNames.EDGE_NAMES: names[:len(case["ejks"])]})
+        if case.get("reuse"):
+            # history on ONE matrices object: it held other matrices before; the caller replaces them through the
+            # public setter and re-derives the keys
+            decoy = {n: {tuple(x + 1 for x in k): v for k, v in m.items()} for n, m in ej.items()}
+            M = JointExcessJointDegreeMatrices({ToolsNames.EJKS: decoy, ToolsNames.EDGE_NAMES: names[:len(case["ejks"])]})
+            M.ejks = ej
+            M.get_excess_degree_keys()
+        else:
+            M = JointExcessJointDegreeMatrices({ToolsNames.EJKS: ej, ToolsNames.EDGE_NAMES: names[:len(case["ejks"])]})
         split = [[names.index(n), sorted(list(k) for k in ks)] for n, ks in M.excess_degree_keys.items()]
         split_raw = [[names.index(n), [list(k) for k in ks]] for n, ks in M.excess_degree_keys.items()]
         if case["xkeys"] is not None:
